@@ -6,6 +6,7 @@ expression context). Each program is first shown to the real checker; accepted p
 (`IrCodegen::try_generate`, in-process) and `incan build` (the real CLI + cargo + rustc).
 """
 import json
+import os
 import re
 
 from . import c01, c03, common, pipe, sem, serve
@@ -120,6 +121,28 @@ def run(tier):
     lift_cov = {"types_and_functions_in_two_modules": len(chain), "types_and_functions_in_two_modules_accepted": n_chain_domain, "types_and_functions_in_two_modules_built": n_chain_ok,
                 "lifted_as_method": len(acc_m), "lifted_as_method_built": len(acc_m) - len(failed_m), "lifted_into_module": len(liftable), "lifted_into_module_built": len(liftable) - len(failed_mod),
                 "multi_declaration_units_lifted_into_module": len(multi), "multi_declaration_units_lifted_built": n_general_ok}
+    # ---------------- (a'') multi-file project shapes, really built under several hash orders -----------------------------
+    # (the project writer iterates hash maps: a project can build under one iteration order and not under another)
+    from . import c12
+
+    shim = os.path.join(common.BUILD, "libverifrand.so")
+    projects = {k: v for k, v in c12.programs("quick").items() if k in ("nested_three_levels", "dependency_constructs_imported_types", "example_multifile", "example_nested_project")}
+    seeds = range(8) if tier == "thorough" else range(4)
+    pjobs = []
+    for name, files in projects.items():
+        entry = files.get("__entry__", "main.incn")
+        fs = {k: v for k, v in files.items() if not k.startswith("__")}
+        for sd in seeds:
+            pjobs.append(((name, sd), fs, {"run": False, "main": entry, "extra_env": {"LD_PRELOAD": shim, "VERIF_HASH_SEED": str(sd)}}))
+    pres = pipe.run_many(pjobs)
+    n_proj_ok = 0
+    for (name, sd), fs, kw in pjobs:
+        r = pres[(name, sd)]
+        if r.ok:
+            n_proj_ok += 1
+        elif r.stage != "check":
+            out.fail(f"project:{name}|{outcome_kind(r)}", {"program": json.dumps(fs), "hash_seed": sd, "stage": r.stage, "detail": r.detail, "stderr": r.stderr[-1500:], "tags": ["multi-file", name]})
+    proj_cov = {"multi_file_projects": len(projects), "multi_file_project_builds": len(pjobs), "multi_file_project_builds_ok": n_proj_ok}
     # ---------------- (b) C03 benign twins --------------------------------------------------------------------------
     twins = twin_programs(tier)
     reqs = [{"id": i, "op": "front", "src": src, "emit": True} for i, (sig, src) in enumerate(twins)]
@@ -168,7 +191,7 @@ def run(tier):
     cov = {
         "evaluations": len(units) + len(twins),
         "distinct_nontrivial": len(ok_sigs),
-        "rule": "programs = every unit of the semantic corpus (see C01), the single-function units again as a method of a class and as a pub function of an imported module (quick: a third), the multi-declaration units again with all declarations in an imported module, and with types and functions in two different imported modules + the benign twin of every C03 rule x context case (quick: level 1 and a sixth of level 2; thorough: all of "
+        "rule": "programs = every unit of the semantic corpus (see C01), the single-function units again as a method of a class and as a pub function of an imported module (quick: a third), the multi-declaration units again with all declarations in an imported module, and with types and functions in two different imported modules, four multi-file project shapes (three-level nested packages, dependency-to-dependency construction, the repository's two multi-file examples) really built under 4 (thorough 8) hash iteration orders + the benign twin of every C03 rule x context case (quick: level 1 and a sixth of level 2; thorough: all of "
         "level 2 and a ninth of level 3), each with a main; + 41 typed expression atoms alone, nested in 7 container forms, and in all ordered pairs within one function "
         "(packed 60 functions per program, bisected; a pack that only fails as a whole is reported as such); + assignment targets: base (local, `mut` parameter, field of `mut self`) x 11 "
         "paths of fields and indices up to four steps deep (constant and variable index) x operator (=, +=), bisected per base; + writes through a loop variable: list base (local, `mut` parameter, field of `mut self`) x 12 places in the loop body (top, then / else / elif with and without a neighbouring statement, nested if, match arm, inner loops) x 3 kinds of write; domain = programs the real checker accepts; oracle = try_generate succeeds and `incan build` exits 0; "
@@ -183,6 +206,7 @@ def run(tier):
         "twins_built": n_built,
         "failing_by_class": {**{k: len(v) for k, v in by_key.items()}, **{f"unit:{n}": 1 for n in failed}},
         **lift_cov,
+        **proj_cov,
         **typed_cov,
     }
     pipe.prune_targets()
